@@ -61,16 +61,18 @@ type ColRes struct {
 
 // Res is the result of one request.
 type Res struct {
-	ID       string     `json:"id"`
-	Idle     int        `json:"idle"`
-	Lag      []int      `json:"lag,omitempty"`
-	Outs     []OutRes   `json:"outs"`
-	Leaks    []Leak     `json:"leaks"`
-	Wiring   *Wiring    `json:"wiring,omitempty"`
-	Rows     [][]string `json:"rows,omitempty"`
-	Cols     []ColRes   `json:"cols,omitempty"`
-	Err      string     `json:"err,omitempty"`
-	Unstable bool       `json:"unstable,omitempty"`
+	ID         string     `json:"id"`
+	Idle       int        `json:"idle"`
+	Lag        []int      `json:"lag,omitempty"`
+	Outs       []OutRes   `json:"outs"`
+	Leaks      []Leak     `json:"leaks"`
+	LeaksAfter []Leak     `json:"leaks_after,omitempty"`
+	Wiring     *Wiring    `json:"wiring,omitempty"`
+	Rows       [][]string `json:"rows,omitempty"`
+	Labels     []string   `json:"labels,omitempty"`
+	Cols       []ColRes   `json:"cols,omitempty"`
+	Err        string     `json:"err,omitempty"`
+	Unstable   bool       `json:"unstable,omitempty"`
 }
 
 func bitsOf(v float64) string { return strconv.FormatUint(math.Float64bits(v), 16) }
@@ -276,8 +278,12 @@ func execute(req *Req) *Res {
 			res.Err = "report: " + werr.Error()
 		}
 		res.Rows = parseRows(buf.String())
-		// let the pipeline settle, then look into the column channels
-		census()
+		for _, col := range report.Columns {
+			res.Labels = append(res.Labels, col.Name())
+		}
+		// let the pipeline settle: goroutines still parked now are parked because the template stopped reading
+		res.Leaks, res.Unstable = census()
+		// then look into the column channels (this consumes what was left over)
 		res.Cols = columnStates(report)
 		if req.Wiring {
 			w := rec.Snapshot()
@@ -288,8 +294,13 @@ func execute(req *Req) *Res {
 		return res
 	}
 	lk, unstable := census()
-	res.Leaks = lk
-	res.Unstable = unstable
+	if req.Mode == "report" {
+		// goroutines that are still parked after the left-over values were taken out
+		res.LeaksAfter = lk
+	} else {
+		res.Leaks = lk
+	}
+	res.Unstable = res.Unstable || unstable
 	return res
 }
 
@@ -324,8 +335,11 @@ func columnStates(report *helper.Report) []ColRes {
 			if ok {
 				c.Left++
 				if c.Left > 1000 {
+					c.State = "values"
 					break
 				}
+				// let the writer (which may have been parked on this send) run on before looking again
+				census()
 				continue
 			}
 			if v.IsValid() {
@@ -334,12 +348,6 @@ func columnStates(report *helper.Report) []ColRes {
 				c.State = "open"
 			}
 			break
-		}
-		if c.Left > 0 {
-			// re-classify the final state but remember values were left
-			if c.State == "" {
-				c.State = "values"
-			}
 		}
 		out = append(out, c)
 	}
